@@ -62,14 +62,20 @@ def _unhex(s):
     return bytes(int(x, 16) for x in re.findall(r"\\x([0-9a-f]{2})", s))
 
 
-def strace_lines(root, prog, timeout=120):
-    out = os.path.join(common.scratch(), f"strace-{os.getpid()}-{abs(hash(json.dumps(prog)))}.txt")
-    cmd = ["strace", "-f", "-o", out, "-xx", "-s", "300000",
+def strace_lines(root, prog, timeout=120, kill_at=None):
+    """kill_at: name of a system call; the recorded process is killed (SIGKILL) when it ENTERS that call for the first time after
+    the first mark - the data it has written so far stay in the page cache, nothing more is synced"""
+    out = os.path.join(common.scratch(), f"strace-{os.getpid()}-{abs(hash(json.dumps(prog)))}-{kill_at}.txt")
+    cmd = ["strace", "-f", "-o", out, "-xx", "-s", "300000"] + ([f"--inject={kill_at}:signal=SIGKILL"] if kill_at else []) + [
            "-e", "trace=openat,open,creat,write,pwrite64,writev,fsync,fdatasync,sync_file_range,close,mkdir,mkdirat,"
                  "rename,renameat,renameat2,unlink,unlinkat,ftruncate,truncate,newfstatat,stat",
            "/venv/bin/python", "-W", "ignore", "-c", CHILD, common.REPO, root, json.dumps(prog)]
     p = subprocess.run(cmd, stdout=subprocess.PIPE, stderr=subprocess.PIPE, timeout=timeout, text=True)
-    if p.returncode != 0:
+    if kill_at:
+        if p.returncode == 0:
+            os.remove(out)
+            return None             # the process never made that call: the scenario cannot be built
+    elif p.returncode != 0:
         raise common.MachineryError(f"recorder child failed rc={p.returncode}: {p.stderr[-2000:]}")
     with open(out, errors="replace") as f:
         lines = f.read().splitlines()
